@@ -42,6 +42,16 @@ def run(ck: Check, repo: Repo) -> None:
                      "new activation in the attributes init_dict reports (`activation`; `output_activation` when the output layer is changed), like its siblings do")
     ck.rule("C07.9", "checkpointed tensors carry no autograd history: a public tensor attribute computed from the parameters of a network is detached "
                      "(pickling drops the graph, so original and restored agent would otherwise back-propagate differently)")
+    ck.rule("C07.10", "what a checkpoint stores is state_dict(): every buffer the repository's modules register is persistent (obligations of C01.12, shared)")
+    from dataclasses import replace
+    from ._c01_extra import _persistent_buffers
+    sub_ck = Check("C01", ck.tier, ck.repo_root)
+    sub_ck.known = []
+    _persistent_buffers(sub_ck, repo)
+    ck.obs.extend(replace(o, rule="C07.10") for o in sub_ck.obs if o.rule == "C01.12")
+    ck.rule("C07.11", "hand-written checkpoint writers name what they store: an entry `<x>_state_dict` / `<x>_init_dict` is read from self.<x>, and the matching "
+                      "hand-written loader puts `<x>_state_dict` into self.<x>")
+    _handwritten_writers(ck, repo)
     _restored_stays(ck, repo)
     _bookkeeping(ck, repo)
     _activation_description(ck, repo)
@@ -196,6 +206,47 @@ def _bookkeeping(ck: Check, repo: Repo) -> None:
                                  "(e.g. TD3's delayed policy update happens on the opposite steps)",
                           construct=f"{c.name}.{m.name}: carried state self.{attr}")
     ck.floor("C07.7", n, 5, "attributes updated from their own previous value in algorithm methods")
+
+
+# ------------------------------------------------------------------------------------------------ C07.11
+def _handwritten_writers(ck: Check, repo: Repo) -> None:
+    n = 0
+    for m in repo.mods.values():
+        if not m.name.startswith("agilerl.algorithms"):
+            continue
+        for cls in m.classes.values():
+            for meth_name in ("save_checkpoint",):
+                w = cls.methods.get(meth_name)
+                if w is None:
+                    continue
+                for d in [x for x in ast.walk(w.node) if isinstance(x, ast.Dict)]:
+                    for k, v in zip(d.keys, d.values):
+                        key = const_value(k) if k is not None else None
+                        if not isinstance(key, str):
+                            continue
+                        for suf, attr_of in (("_state_dict", "state_dict"), ("_init_dict", "init_dict")):
+                            if not key.endswith(suf):
+                                continue
+                            name = key[: -len(suf)]
+                            srcs = [x for x in ast.walk(v) if (isinstance(x, ast.Call) and last_attr(x) == attr_of and dotted(x.func.value).startswith("self."))
+                                    or (isinstance(x, ast.Attribute) and x.attr == attr_of and dotted(x.value).startswith("self.") and attr_of == "init_dict")]
+                            if not srcs:
+                                continue
+                            n += 1
+                            owners = {dotted(x.func.value if isinstance(x, ast.Call) else x.value)[5:] for x in srcs}
+                            ck.ob("C07.11", w, v, owners == {name}, f"{cls.name}.save_checkpoint: `{key}` stores self.{name}.{attr_of}",
+                                  detail=f"`{key}` is read from {sorted(owners)}: after loading, self.{name} holds another network's values",
+                                  construct=f"{cls.name}.save_checkpoint: {key}")
+                ld = cls.methods.get("load_checkpoint")
+                if ld is not None:
+                    for c in calls_in(ld.node, nested=True):
+                        if last_attr(c) == "load_state_dict" and c.args and isinstance(c.args[0], ast.Subscript) and isinstance(const_value(c.args[0].slice), str) \
+                                and const_value(c.args[0].slice).endswith("_state_dict") and dotted(c.func.value).startswith("self."):
+                            n += 1
+                            key = const_value(c.args[0].slice)
+                            ck.ob("C07.11", ld, c, dotted(c.func.value)[5:] == key[: -len("_state_dict")], f"{cls.name}.load_checkpoint: `{key}` is loaded into self.{key[:-11]}",
+                                  construct=f"{cls.name}.load_checkpoint: {key}")
+    ck.floor("C07.11", n, 8, "named entries of hand-written checkpoint writers / loaders")
 
 
 # ------------------------------------------------------------------------------------------------ C07.8
@@ -499,6 +550,22 @@ def _order(ck: Check, repo: Repo, fn: Fn, collected: bool) -> None:
                 attr_sets.append(cfg.node_of(c))
     attr_sets = [a for a in attr_sets if a is not None]
     ck.ob("C07.2", fn, attr_sets[0].ast if attr_sets else fn.node, len(attr_sets) == 1 and before(oload, attr_sets), f"{label}: plain attributes are restored from the checkpoint (after networks and optimizers)")
+    # ... on the algorithm instance itself: where the agent name is re-bound (load() wraps the agent in its saved wrapper), the restore happens before
+    for a in attr_sets:
+        defs = cfg.defs_reaching(a, agent) if agent != "self" or "self" not in fn.params else []
+        vals = [cfg.value_of_def(d, agent) for d in defs]
+        first = fn.named_params[0] if fn.named_params else None
+        foreign = [v for v in vals if not (isinstance(v, ast.Call) and isinstance(v.func, ast.Name) and v.func.id == first)]
+        ck.ob("C07.2", fn, a.ast, not foreign, f"{label}: the plain attributes are restored on the algorithm instance (not on an object the agent name was re-bound to)",
+              detail=f"at the restore loop `{agent}` may also be `{short(foreign[0], 60)}`: for a wrapped agent the loop then runs over the wrapper's attributes and the inner "
+                     "algorithm's steps / scores / counters keep their constructor values" if foreign else "",
+              construct=f"{label}: restore loop target")
+    # the loaders leave the train / eval mode of the rebuilt networks alone (the mode is not part of a checkpoint; a switch applied by one loader only
+    # leaves targets and critics in evaluation mode for good)
+    mode_calls = [c for c in calls_in(fn.node, nested=True) if last_attr(c) in ("eval", "train", "requires_grad_") and isinstance(c.func, ast.Attribute)]
+    ck.ob("C07.2", fn, mode_calls[0] if mode_calls else fn.node, not mode_calls, f"{label}: the loader does not switch the mode of the networks it restores",
+          detail=f"`{short(mode_calls[0], 60)}`: networks that the algorithm never switches back (targets, critics) stay in that mode, so BatchNorm / noisy layers behave differently "
+                 "from the original agent's during continued learning" if mode_calls else "", construct=f"{label}: mode switches")
     # hooks vs loads
     after = [h for h in hooks if h is not None and all(h.id in cfg.reachable_from(l) for l in loads)]
     weight_hooks = _weight_copying_hooks(repo)
@@ -619,6 +686,9 @@ def _wrapper(ck: Check, repo: Repo) -> None:
 _BF = "agilerl/algorithms/core/base.py"
 _WF = "agilerl/wrappers/agent.py"
 VARIANTS = [
+    ("ilql-q2-entry-stores-q", "agilerl/algorithms/ilql.py", "                \"q2_state_dict\": self.q2.state_dict() if self.double_q else None,", "                \"q2_state_dict\": self.q.state_dict() if self.double_q else None,", "fire", "C07.11"),
+    ("load-puts-networks-in-eval-mode", _BF, "            elif state_dict:\n                loaded_module.load_state_dict(state_dict)\n\n        # Reconstruct optimizers in algorithm", "            elif state_dict:\n                loaded_module.load_state_dict(state_dict)\n                loaded_module.eval()\n\n        # Reconstruct optimizers in algorithm", "fire", "C07.2"),
+    ("noisy-buffers-non-persistent", "agilerl/modules/custom_components.py", "        self.register_buffer(\"bias_epsilon\", torch.empty(out_features, device=device))", "        self.register_buffer(\"bias_epsilon\", torch.empty(out_features, device=device), persistent=False)", "fire", "C07.10"),
     ("bandit-theta0-in-graph", "agilerl/algorithms/neural_ucb_bandit.py", "            [w.flatten() for w in self.exp_layer.parameters() if w.requires_grad]\n        ).detach()", "            [w.flatten() for w in self.exp_layer.parameters() if w.requires_grad]\n        )", "fire", "C07.9"),
     ("bandit-theta0-no-grad-block-ok", "agilerl/algorithms/neural_ucb_bandit.py", "        self.theta_0 = torch.cat(\n            [w.flatten() for w in self.exp_layer.parameters() if w.requires_grad]\n        ).detach()", "        with torch.no_grad():\n            self.theta_0 = torch.cat(\n                [w.flatten() for w in self.exp_layer.parameters() if w.requires_grad]\n            )", "silent", None),
     ("multi-input-output-activation-not-described", "agilerl/modules/multi_input.py", "            self.output_activation = activation\n            self.output = get_activation(activation)", "            self.output = get_activation(activation)", "fire", "C07.8"),
